@@ -106,3 +106,85 @@ reg("C11", "exploration",
     require={"any": {"ranges_equal": 5000, "ranges_selecting_strict_subset": 500, "ranges_selecting_nothing": 500,
                      "archives_with_leaves": 10, "opens_that_skipped_leaf_bytes": 20, "bound_kinds.open-excl": 100,
                      "bound_kinds.excl-incl": 100}})
+
+reg("C01", "exploration",
+    "cases = logical archives built through the public API: tile count classes {0, 1, 2-50, 1e3-5e3, 2e4-6e4 (leaf-spilling)}, id "
+    "layouts {dense, zoom block, runs with gaps, sparse over the whole valid domain incl. 0 and the largest id, zoom-block edges, "
+    "high-entropy}, contents 1 B-100 KiB with exact and near duplicates, random JSON-object metadata (unicode, escapes, i64/u64, "
+    "17-digit floats, depth 60), all 6 tile types x 5 tile compressions x 4 internal compressions, zoom bytes 0-255, coordinates "
+    "incl. bounds, exact multiples and half-step ties; written by the sync (4/5) or async (1/5) writer and opened with from_bytes. "
+    "Distinct by fingerprint of the logical archive; non-trivial = >=2 tiles and (duplicates or non-empty metadata). Oracle: the "
+    "generator's own map + settings; every added tile fetched, ~100 absent ids probed per archive.",
+    require={"any": {"round_trips_equal": 300, "archives_with_leaf_directories": 8, "coordinate_lookups_equal": 1000,
+                     "absent_ids_probed": 10000, "codec.none": 50, "codec.gzip": 50, "codec.brotli": 50, "codec.zstd": 50}},
+    assumptions=["no two generated contents collide under the library's 64-bit content hash (a collision would be reported as a violation)"])
+
+
+def c02_python(cfg, tier, seed, work, agg):
+    """Second, unrelated reader (Python stdlib) over the none/gzip files the Rust phase left in <work>/py."""
+    import glob
+    import json
+    import os
+    import sys
+    here = os.path.dirname(os.path.abspath(__file__))
+    sys.path.insert(0, os.path.join(here, "pyref"))
+    import pmtiles_ref as P
+    files = sorted(glob.glob(os.path.join(work, "py", "*.pmtiles")))
+    c = agg["counters"]
+    for f in files:
+        exp = json.load(open(f[:-len(".pmtiles")] + ".json"))
+        data = open(f, "rb").read()
+        why = None
+        try:
+            h, entries, meta = P.validate(data)
+            if sum(e[3] for e in entries) != exp["n_tiles"]:
+                why = "python reader: directories address %d tiles, %d were added" % (sum(e[3] for e in entries), exp["n_tiles"])
+            elif meta != json.loads(exp["metadata"]):
+                why = "python reader: metadata differs from what was set"
+            elif (h["tile_type"], h["tile_compression"], h["internal_compression"]) != (exp["tile_type"], exp["tile_compression"], exp["internal_compression"]):
+                why = "python reader: header enum fields differ"
+            elif [h["min_zoom"], h["max_zoom"], h["center_zoom"]] != exp["zooms"]:
+                why = "python reader: zoom fields differ"
+            else:
+                for e in exp["expected"]:
+                    got = P.lookup(data, h, e["id"])
+                    if got is None or len(got) != e["len"] or P.fnv_mix(got) != e["fp"]:
+                        why = "python reader: lookup of tile %d does not return the bytes that were added" % e["id"]
+                        break
+                    c["python_lookups"] = c.get("python_lookups", 0) + 1
+                if why is None:
+                    for a in exp["absent"]:
+                        if P.lookup(data, h, a) is not None:
+                            why = "python reader: lookup of absent tile %d returns data" % a
+                            break
+        except P.Invalid as e:
+            why = "python reader rejects the file: %s" % e
+        except (ValueError, KeyError, IndexError, UnicodeDecodeError, OverflowError) as e:
+            why = "python reader rejects the file: %r" % (e,)
+        c["python_files_validated"] = c.get("python_files_validated", 0) + 1
+        if why:
+            sig = "C02|python-reader|invalid-file|" + why.split(":")[0]
+            v = agg["violations"].setdefault(sig, {"signature": sig, "what": why + " (" + json.dumps(exp["describe"])[:300] + ")", "count": 0,
+                                                 "replay": {"property": "C02", "tier": tier, "seed": seed, "case": exp["case"], "profile": "checked",
+                                                            "api": "python-reader", "class": "invalid-file", "what": why, "materialised": exp["describe"]}})
+            v["count"] += 1
+    if len(agg["samples"]) < 6 and files:
+        agg["samples"].append({"python_reader_file": os.path.basename(files[0]), "bytes": os.path.getsize(files[0])})
+
+
+def c02_phases(tier):
+    return [{"name": "main", "profile": "checked", "mem_gib": 12, "timeout_s": 900 if tier == "quick" else 7200},
+            {"name": "python-reader", "kind": "python", "fn": c02_python}]
+
+
+reg("C02", "exploration",
+    "cases = every file produced by the sync and async writers for logical archives of the C01 classes (independent seeds), incl. "
+    "leaf-spilling ones, 4 codecs; each whole file is judged by the Rust reference reader (all C02 clauses: header, sections inside "
+    "the file and disjoint, root within 16 KiB, directories decodable by the upstream codec with exact consumption, strictly "
+    "ascending non-overlapping entries inside tile data, leaf pointers carrying the leaf's first id, JSON-object metadata, the three "
+    "counters recomputed, clustered flag, spec lookup for present and absent ids) and a sample of none/gzip files additionally by an "
+    "unrelated Python reader. Distinct by fingerprint of the logical archive; non-trivial = >= 2 tiles.",
+    require={"any": {"files_validated": 300, "files_with_leaf_directories": 8, "files_from_async_writer": 100,
+                     "python_files_validated": 20, "python_lookups": 100, "spec_lookups": 10000}},
+    phases=c02_phases,
+    assumptions=["flate2/brotli/zstd are shared with the library as codec back ends (gzip additionally checked with Python zlib)"])
